@@ -61,3 +61,39 @@ mod heap {
         let _ = Scalar::batch_invert(&mut arr[..n]);
     }
 }
+
+// ------------------------------------------------------------------------------------------------
+// C07 / C04 residual of unit MONT: `&MontgomeryPoint * &Scalar` feeds `scalar.bits_le().rev().skip(1)` to the verified
+// ladder driver. Verus cannot establish the iterator laws of `Rev`/`Skip`/`Map`; this COMPLETE harness (all 2^256 byte
+// strings, fixed 255-iteration loop with unwinding assertions) proves the adapter chain yields exactly bits 254..0.
+mod bits {
+    use super::*;
+    #[kani::proof]
+    #[kani::unwind(258)]
+    fn bits_le_rev_skip1_yields_bits_254_down_to_0() {
+        let b: [u8; 32] = kani::any();
+        let s = Scalar { bytes: b };
+        let mut it = s.bits_le().rev().skip(1);
+        let mut i: isize = 254;
+        while i >= 0 {
+            let want = ((b[(i / 8) as usize] >> (i % 8)) & 1) == 1;
+            assert!(it.next() == Some(want));
+            i -= 1;
+        }
+        assert!(it.next().is_none());
+    }
+    #[kani::proof]
+    #[kani::unwind(258)]
+    fn bits_le_yields_256_bits_little_endian() {
+        let b: [u8; 32] = kani::any();
+        let s = Scalar { bytes: b };
+        let mut it = s.bits_le();
+        let mut i: usize = 0;
+        while i < 256 {
+            let want = ((b[i / 8] >> (i % 8)) & 1) == 1;
+            assert!(it.next() == Some(want));
+            i += 1;
+        }
+        assert!(it.next().is_none());
+    }
+}
